@@ -11,6 +11,7 @@
 #include <cstdio>
 #include <cstdlib>
 #include <cstring>
+#include <unistd.h>
 #include <map>
 #include <set>
 #include <sstream>
@@ -100,9 +101,31 @@ inline void violation(const std::string& key, const std::string& detail) {
     fflush(stdout);
   }
 }
+// "current case" marker: remembered, and written to stderr as "CASE\t<text>" by the sanitizer death callback so that
+// a sanitizer abort can be attributed to a concrete input
+static char g_current[1024];
 inline void current(const std::string& text) {
-  printf("C\t%s\n", oneline(text).c_str());
-  fflush(stdout);
+  std::string o = oneline(text);
+  strncpy(g_current, o.c_str(), sizeof(g_current) - 1);
+}
+#if defined(__SANITIZE_ADDRESS__) || defined(__SANITIZE_THREAD__)
+#define VF_HAVE_SAN 1
+#elif defined(__has_feature)
+#if __has_feature(address_sanitizer) || __has_feature(thread_sanitizer)
+#define VF_HAVE_SAN 1
+#endif
+#endif
+#ifdef VF_HAVE_SAN
+extern "C" void __sanitizer_set_death_callback(void (*callback)(void));
+#endif
+inline void installDeathCallback() {
+#ifdef VF_HAVE_SAN
+  __sanitizer_set_death_callback([]() {
+    fflush(stdout);
+    const char* p = "\nCASE\t";
+    if (write(2, p, 6) < 0 || write(2, g_current, strlen(g_current)) < 0 || write(2, "\n", 1) < 0) {}
+  });
+#endif
 }
 
 // args: key=value pairs
